@@ -14,6 +14,8 @@ Lemma defrag_eq : extracted_defrag = modelled_defrag.
 Proof. vm_compute. reflexivity. Qed.
 Lemma early_eq : extracted_early_data = modelled_early_data.
 Proof. vm_compute. reflexivity. Qed.
+Lemma calls_eq : extracted_gate_calls = modelled_gate_calls.
+Proof. vm_compute. reflexivity. Qed.
 
 (* ------------------------------------------------------------------ computed facts *)
 Lemma incl_all : forallb (included modelled_gates) all_cfgs = true.
